@@ -64,7 +64,9 @@ def gen_world(t, prop):
     hostile = prop == "C04" or t.chance(1, 5)
     omen = worlds.gen_omen(t) if t.chance(1, 2) else None
     menu = worlds.VAR_MENU + ["A10", "D10", "A12", "O10"] if t.chance(1, 4) else None     # two-digit lengths
-    spec = worlds.gen_syn(t, hostile=hostile, omen=omen, max_pts=600 if prop == "C02" else 1500, menu=menu)
+    big = t.chance(1, 10)
+    spec = worlds.gen_syn(t, hostile=hostile, omen=omen, max_pts=600 if prop == "C02" else 1500, menu=menu, big=big,
+                          max_structs=3 if big else 4, max_vars=2 if big else 4)
     # PRINCE base structures: single-variable structures
     spec["spell"] = t.draw(4) if t.chance(1, 4) else 0        # same probability written as 0.5 / 0.50 / 5.0e-01
     names = [v for v in spec["vars"] if v[0] != "C"]
